@@ -35,6 +35,7 @@ type c17env struct {
 	log  *mon.Log
 	w1   mon.W
 	w2   mon.W
+	w3   mon.W
 	regs []regLevel
 }
 
@@ -125,6 +126,7 @@ func c17hist(c *Ctx) {
 		e := &c17env{log: mon.NewLog()}
 		e.w1 = mon.New(e.log, "N", mon.ShapePlain)
 		e.w2 = mon.New(e.log, "E", mon.ShapePlain)
+		e.w3 = mon.New(e.log, "OTHER-LEVEL", mon.ShapePlain)
 		usedVals := map[slog.Level]bool{}
 		for _, l := range builtinLevels {
 			usedVals[l] = true
@@ -182,6 +184,15 @@ func c17hist(c *Ctx) {
 					rl.title += gen.Pick(r, []string{" ", "\n"})
 				case r.P(6):
 					rl.title = gen.Pick(r, []string{"qu\"ote", "back\\slash", "ctl\x01x", "uni\u00e9"}) + fmt.Sprint(r.Intn(4))
+				}
+				if r.P(8) {
+					// a title that is a decimal number: often the numeric value of ANOTHER level (names and values are
+					// different namespaces)
+					rl.title = fmt.Sprint(int(gen.Pick(r, universe)))
+					if r.P(30) {
+						rl.title = fmt.Sprint(r.Range(-50, 70))
+					}
+					c.R.Add("numeric_titles_tried", 1)
 				}
 				if r.P(15) && len(e.regs) > 0 {
 					rl.title = gen.Pick(r, e.regs).title // colliding title
@@ -361,6 +372,14 @@ func c17hist(c *Ctx) {
 					}
 					lg := slog.New("route").Root()
 					lg.SetWriter(e.w1).SetErrorWriter(e.w2).SetLevel(slog.AlwaysLevel).SetColorMode(false)
+					// the logger may have (or have had) a writer for some OTHER level: that is no business of this one
+					switch (op + int(l)) % 3 {
+					case 1:
+						lg.AddLevelWriter(slog.Level(4242), e.w3)
+					case 2:
+						lg.AddLevelWriter(slog.Level(4242), e.w3)
+						lg.RemoveLevelWriter(slog.Level(4242), e.w3)
+					}
 					e.log.Reset()
 					lg.LogAttrs(bg, l, "route-probe")
 					ws := e.log.Writes("")
